@@ -75,7 +75,8 @@ def w1(ctx):
                      ctx.loc(s))
 
 
-@rule("C17-W2", "C17", 10, "rewind: on every path class the stored cursor equals min(cap, max(data_offset, x)), x = n (Start) | cap - n (End) | allocated + d (Current)")
+@rule("C17-W2", "C17", 10, "rewind: on every path class the stored cursor equals min(cap, max(data_offset, x)), x = n (Start) | cap - n (End) | allocated + d (Current) "
+      "(C06: a cursor outside [data_offset, cap] in the mapped header is refused by every later open)", also=("C06",))
 def w2(ctx):
     for fl in FLAVOURS:
         b = arena_fn(ctx, fl, "rewind")
@@ -188,7 +189,8 @@ def w4(ctx):
                  {"others": [ctx.loc(e) for e in other][:4]})
 
 
-@rule("C17-Cl1", "C17", 2, "clear: the read-only test is the first branch and returns Err(ReadOnly); Memory::clear is called only on the writable path")
+@rule("C17-Cl1", "C17", 4, "clear: the read-only test is the first branch and returns Err(ReadOnly); Memory::clear is called only on the writable path, and on every "
+      "writable path (C20: clear resets discarded and the list whatever the cursor is)", also=("C20",))
 def cl1(ctx):
     for fl in FLAVOURS:
         b = arena_fn(ctx, fl, "clear")
@@ -200,6 +202,11 @@ def cl1(ctx):
             fs = ctx.facts_of(ev, calls[0])
             ok = ("bool", field(SELF, "ro"), False) in fs
         yield Ob(key_of("C17-Cl1", b.path, "ro-guard"), ok, "Memory::clear reached only when self.ro is false", b.loc())
+        # and it is reached on every writable path: an Ok return that skips it (`if allocated == data_offset { return Ok(()) }`) leaves discarded, the free
+        # list and whatever lies above a rewound cursor as they were
+        oks = [e for e in res.log if e["kind"] == "ret0" and not e["chain"] and tag(e["value"]) == "variant" and e["value"][2] == "Ok"]
+        okc = len(calls) == 1 and bool(oks) and all(b.dominates(calls[0]["bb"], e["bb"]) for e in oks)
+        yield Ob(key_of("C17-Cl1", b.path, "ok-only-after-clear"), okc, "every Ok return of clear() lies behind the call of Memory::clear (%d Ok return(s))" % len(oks), b.loc())
         errs = [e for e in res.log if e["kind"] == "ret0" and not e["chain"] and tag(e["value"]) == "variant" and e["value"][2] == "Err"]
         ok2 = any(("bool", field(SELF, "ro"), True) in ctx.facts_of(ev, e) and tag(e["value"][3][0]) == "variant" and e["value"][3][0][2] == "ReadOnly" for e in errs)
         yield Ob(key_of("C17-Cl1", b.path, "ro-err"), ok2, "read-only arena: clear returns Err(ReadOnly)", b.loc())
